@@ -503,6 +503,14 @@ class Interpreter:
             # If more than one transition, we check (1) they are from separate regions and (2) they
             # do not conflict. Two transitions conflict if one of them leaves the parallel state
             for t1, t2 in combinations(transitions, 2):
+                # Check (0): two transitions of the same state are never in separate regions
+                if t1.source == t2.source:
+                    raise NonDeterminismError(
+                        'Non-determinist choice between transitions {t1} and {t2}'
+                        '\nConfiguration is {c}\nEvent is {e}\nTransitions are:{t}\n'
+                        .format(c=self.configuration, e=t1.event, t=transitions, t1=t1, t2=t2)
+                    )
+
                 # Check (1)
                 lca = cast(str, self._statechart.least_common_ancestor(t1.source, t2.source))
                 lca_state = self._statechart.state_for(lca)
